@@ -47,6 +47,10 @@ def run_property(mod, pid, tier, seed, only=None, jobs=0, keep=False, write_evid
     work = "/var/tmp/rqverif.%s.%d" % (pid, os.getpid())
     shutil.rmtree(work, ignore_errors=True)
     os.makedirs(work)
+    # the harness sources are snapshotted per run, so that editing /verif/harness does not disturb a run in flight
+    snap = os.path.join(work, "harness")
+    shutil.copytree(ov.HARNESS_SRC, snap)
+    ov.HARNESS = snap
     rc = 0
     results = []
     vc_results = []
@@ -68,7 +72,7 @@ def run_property(mod, pid, tier, seed, only=None, jobs=0, keep=False, write_evid
             ovdir = os.path.join(work, "ov")
             gen = os.path.join(work, "gen")
             try:
-                ov.make_overlay(ovdir)
+                ov.make_overlay(ovdir, modules=sorted(set(i.module for i in instances)))
             except ov.OverlayError as e:
                 log("INCONCLUSIVE: overlay: %s" % e)
                 inconclusive.append("overlay: %s" % e)
